@@ -678,7 +678,7 @@ func TestCheck(t *testing.T) {
 	run.Rule("distinct (innermost error {class sentinel, real OS error of the class}, asked class, wrapping chain, embedding {none, inner x object, outer x object}) tuples for which Is(GRPCWrap(chain), asked class) was evaluated, plus distinct (gRPC code, message) pairs of the code -> class direction; the enumeration visits each tuple once. " +
 		"Chains: every sequence of depth <= 3 over the alphabet {single-%w x corpus texts, two-%w with the class last, two-%w with the class first, errors.Join with the class last / first, pointer type with Unwrap() []error, slice type with Unwrap() []error}, plus every depth-4 sequence of single-%w texts. " +
 		"Objects: 3 crossed with every chain; 7 whose JSON contains '%' crossed with the chains of depth <= 2. " +
-		"Real OS errors (produced at run time): chains of depth <= 3 without object, depth <= 2 with the objects hostile-struct and pct-struct. "+
+		"Real OS errors (produced at run time): chains of depth <= 3 without object, depth <= 2 with the objects hostile-struct and pct-struct. " +
 		"Text-stress family: chains of depth <= 2 (thorough 3) with exactly one layer whose text is the text of one of the twelve class sentinels (first, last, quoted), the rendering of one of the 17 gRPC codes, or a long text (5 KB, 70 KB), the other layers from the alphabet above, with the 3 objects and two big objects (JSON of 5 KB and 70 KB; those also under plain chains); the code -> class direction also over messages that are / end with / start with each class text and long messages, and the class of a code must not depend on the message")
 	run.Assume("the layer texts contain parts of the embed marker but a chain whose text (without the embedding) contains the complete marker \\x1bjson - possible only where two corpus texts meet - is outside EmbedObject's contract and is not generated (counted in chains_excluded_marker_formed)")
 	run.Assume("'classes that have a gRPC code' are the ten keys of errorsToCode; ErrClosed and ErrCommunication take part as asked classes only")
